@@ -686,6 +686,24 @@ func run(c *fw.Ctx, idx int) {
 			if victim == at {
 				role += "-self"
 			}
+			// half of the removals find a mix on the departing peer: one pin that cannot
+			// be re-allocated without it (minimum = cluster size) and pins that can
+			if repin && r.Intn(2) == 0 {
+				mk := func(name string, min, max int, user []peer.ID) {
+					pinSeq++
+					ci := gen.Cid(88000+idx*100+pinSeq, pinSeq)
+					_, err := w.members[at].peer.Node.Cluster.Pin(ctx, ci, api.PinOptions{Name: name, ReplicationFactorMin: min, ReplicationFactorMax: max, UserAllocations: user})
+					if err == nil {
+						w.pins[ci.String()] = true
+					}
+				}
+				mk("needs-everyone", len(in), len(in), nil)
+				for k := 0; k < 3; k++ {
+					mk(fmt.Sprintf("movable-%d", k), 1, 1, []peer.ID{w.id(victim)})
+				}
+				w.trace = append(w.trace, fmt.Sprintf("  (before the removal: 1 pin with min=%d and 3 pins 1/1 placed on p%d)", len(in), victim))
+				w.checkPinsets(ctx, "pre-removal-pins")
+			}
 			// pins held by the victim before
 			pinsBefore, _ := w.members[at].peer.Node.Cluster.Pins(ctx)
 			w.trace = append(w.trace, fmt.Sprintf("remove p%d (%s) at p%d (cluster of %d)", victim, role, at, len(in)))
